@@ -1666,6 +1666,7 @@ pub fn run(a: &Args) {
         }
         crate::api::report(&mut out);
         crate::routes::run(&mut out).await;
+        crate::route_table::run(&mut out, &ctx).await;
         let carries = detect_carries(&ctx).await;
         out.extra.insert("message_kinds_adopting_the_virtual_time(generic,fast_get,fast_set,pooled_get,pooled_set,batch_get,batch_set)".into(), json!(carries));
         for (tn, tops, label) in timed_corpus(&ctx) {
@@ -1760,7 +1761,7 @@ pub fn run(a: &Args) {
         out.extra.insert("multi_key_command_coverage".into(), cov);
     }
     out.extra.insert("audit".into(), serde_json::from_str(r####"{
- "1 entry paths": "CLOSED: build.rs derives ShardMessage variants / ShardHandle fns / ShardedActorState pub fns from sharded_actor.rs, src/api.rs accounts for each (unaccounted → C03:api-not-covered); routes_gen.rs classifies every Command variant exhaustively, 82 key-bearing variants × 29 keys route-probed; EvictExpired driven (EVICT tick); OPEN: BatchCommand / execute_fire_and_forget (dead code, no caller), adaptive/metrics fns (not keyspace; probed only for non-interference)",
+ "1 entry paths": "CLOSED: build.rs derives ShardMessage variants / ShardHandle fns / ShardedActorState pub fns from sharded_actor.rs, src/api.rs accounts for each (unaccounted → C03:api-not-covered); routes_gen.rs classifies every Command variant exhaustively, 82 key-bearing variants × 29 keys route-probed; session 4: the ROUTING TABLE (which shards get a message for which variant; Model/RouteTable.lean, proved to be the model's routing: route_table_is_model_routing) is derived from the binary (get_primary_key on distinct-field probes of all 127 variants; receive sets observed through 2^i expired keys per shard, Vec fields with 0/1/2/3 elements) and from the source (arms of execute) and compared row by row (C03:route-table:*); EvictExpired driven (EVICT tick); OPEN: BatchCommand / execute_fire_and_forget (dead code, no caller), adaptive/metrics fns (not keyspace; probed only for non-interference)",
  "2 input alphabet": "CLOSED: keys from a structured alphabet (tags empty/non-empty/nested/unbalanced, families, punctuation, CR LF, glob metacharacters, high bytes, non-UTF-8 on byte paths, empty, 300-byte); values: empty, binary / non-UTF-8, integers at i64 limits, 1 MiB; glob patterns of every shape; CLOSED (session 3): class m7 — all five value types, expiry commands and multi-call scripts as timed streams against the sharding model instantiated with the M7 reference executor (Props/C03M7.lean); OPEN: on the byte paths (fast/pooled/batch) values are strings by construction",
  "3 comparisons at equality": "CLOSED: deadline just before / at / just past / far (every read path); DEL with 1 vs ≥ 2 keys (fan-out threshold); MSET on one vs several shards; SCAN count vs matches; shard counts at the clamp bounds (0, 1, 256, 1000)",
  "4 configuration": "CLOSED: shard counts 0,1,2,3,5,7,64,256,1000 (clamping, non-powers of two), adaptive features on, PerformanceConfig through validate() with response-pool capacity 0/1/2/256 and prewarm 0..capacity+1; OPEN: buffers / batching / connection_pool fields are connection-level (C04)",
@@ -1770,7 +1771,7 @@ pub fn run(a: &Args) {
  "8 node-global state": "CLOSED: routing state immutable at run time (source-derived: plain fields, no &mut self, no assignment, no consumer of ScalingDecision; rebalance probe); script cache in the model (script_cache_global_refines); CONFIG, CLIENT name, SCRIPT FLUSH, DBSIZE/FLUSHALL fan-out probed 1 vs 4 shards; OPEN: INFO (process-dependent fields not compared), ACL stubs",
  "9 observations": "CLOSED: replies, aggregate dump through generic AND byte paths, KEYS as multiset, what exists after the clock passes deadlines (DBSIZE/EXISTS/GET through every path), EVICT tick count (model, not 1-vs-N: legitimately shard-count dependent); OPEN: TTL/PTTL values are C01's; panics of a shard actor surface as 'ERR shard response failed' replies (seen as disagreements), not caught separately",
  "10 finding absorption": "CLOSED: listed findings attributed by cause + model prediction (resolve); new finding C03:script-undeclared-key added by cause",
- "11 harness fragility": "CLOSED: routing probe no longer relies on RENAME; predictor unavailability reported; OPEN: a panic inside the harness' own tasks aborts the run (reported by check as harness exit)",
+ "11 harness fragility": "CLOSED: routing probe no longer relies on RENAME; predictor unavailability reported; session 4: the model driver hung on seed 4 (exponential RedisX.classScan on a 300-byte pattern with an unclosed class) — the small executor now evaluates the same matcher with every recursive call bound once (globB_eq); seeds 1..6 exit 0; OPEN: a panic inside the harness' own tasks aborts the run (reported by check as harness exit)",
  "monotone time hypothesis": "shard_count_unobservable_timed assumes non-decreasing virtual time. The real system CAN violate it per shard: get_current_virtual_time() is read before the message is enqueued, so two concurrent clients can enqueue stamps out of order (and a wall clock can step back); the model covers this (setTime with a smaller now), the correspondence exercises it (timed:nonmonotone-clock) and agrees. It is not a defect: a single client's command sequence (the property's quantifier) has monotone stamps; with concurrent clients a stale-stamped message overlaps the deadline in real time and either answer is linearizable; evicted keys never come back because eviction is permanent"
 }"####).unwrap());
     out.finish("class srvc: pipelines of 3..40 answered, time-free frames on ONE connection through the REAL OptimizedConnectionHandler (hook H1: generated read segmentation incl. byte by byte, generated partial-write sizes, generated min_pipeline_buffer / batch_threshold / read_size) over a real 1- and N-shard ShardedActorState, written byte stream (decoded, canonicalised per frame, re-encoded) + dump against Server.run (Props/ServerConn node_end_to_end); class srv: command FRAMES (~110 templates: every command of the composed model with option/case variants, frames the parser rejects, commands outside the model) as RESP bytes through the real RespCodec::parse → Command::from_resp_zero_copy → execute / pooled_fast_* / fast_batch_*_pipeline → connection encoders on 1 and N shards against Server.handle (reply bytes + dump); class m7: timed streams (8..36 steps over 5 keys) of the WHOLE M7 command set (redisx generators of C01 minus GETSET / SPOP / RANDOMKEY / non-UTF-8 members) + 4 multi-call Lua scripts + TTL ticks + dumps through the real execute() on 1 and N ∈ {2,3,4,8,16} shards against Shards.M7.execNT7code, plus the fixed per-command after-deadline corpus; otherwise: case = one command sequence (8..40 ops over 3..9 keys; corpus cases up to 80 ops) run on real ShardedActorState instances with 1 and N ∈ {2,3,4,8,16} shards and on the model: single-key string/list commands, MGET/MSET/DEL/EXISTS fan-out, KEYS/DBSIZE/FLUSH, fast/pooled/batch byte paths (incl. non-UTF-8 keys), two-key commands, MSETNX, SCAN, RANDOMKEY; KEYS / SCAN MATCH patterns of every shape (literal only for an existing / a missing key, `*`, `?`, classes, negated classes, ranges, degenerate ranges, unterminated `[`, empty classes, mixed) over keyspaces of 8..45 keys spread over the shards; plus timed streams (SET [PX|EX], GET, EXISTS, DBSIZE, MGET/MSET, fast/pooled GET/SET, fast_batch_get/set_pipeline with the simulated clock advanced between commands: random streams, and the structured pattern `deadline; clock just before / at / just past / far past it; traffic for other shards only or none; read through one path` for every read path — distribution under timed:path=…; non-trivial iff a TTL is set, time passes and something is read); distinct by shard count + op text; non-trivial iff its keys live on ≥ 2 shards and it contains a fan-out, byte-path or two-key command");
